@@ -67,10 +67,10 @@ fn new_bytecode<'gc>(
         .into_iter()
         .map(|index| {
             env.get_global(index.definition_name())
-                .expect("ICE: Global is missing from environment")
-                .value
+                .map(|global| global.value)
+                .ok_or_else(|| Error::UndefinedBinding(index.definition_name().into()))
         })
-        .collect::<Vec<_>>();
+        .collect::<Result<Vec<_>>>()?;
 
     // SAFETY No collection are done while we create these functions
     unsafe {
